@@ -6,6 +6,7 @@ package main
 //   rst w <side> <opcode> <ctor> <ext> <fail> <seed> <hist,> <S|C> <op2> <after,>      wsutil.Writer.Reset
 //   rst ro <side> <opcode> <ctor> <ext> <fail> <seed> <hist,> <op2> <after,>           wsutil.Writer.ResetOp
 //   rst pool <side> <opcode> <n> <fail> <seed> <hist,> <after,>                        PutWriter / GetWriter
+//   rst pool2 <side> <opcode> <ctor> <fail> <seed> <hist,> <S|C> <n> <after,>          any writer through PutWriter, then GetWriter(n)
 //   rst u8 <histhex> <k> <afterhex> <k2>                                               UTF8Reader.Reset
 //   rst cr <mask1> <histhex> <mask2> <afterhex> <k>                                    CipherReader.Reset
 //   rst cwr <mask1> <histhex> <mask2> <afterhex>                                       CipherWriter.Reset
@@ -19,6 +20,7 @@ import (
 	"fmt"
 	"io"
 	"math/rand"
+	"runtime/debug"
 	"strconv"
 	"strings"
 
@@ -98,7 +100,7 @@ func readAllU8(u *wsutil.UTF8Reader, k int) string {
 func init() {
 	ops["rst"] = func(a []string) string {
 		switch a[0] {
-		case "w", "ro", "pool":
+		case "w", "ro", "pool", "pool2":
 			st := side(a[1])
 			opn, _ := strconv.Atoi(a[2])
 			var ctor, ext, fail, hist, after string
@@ -123,6 +125,11 @@ func init() {
 				seed, _ = strconv.ParseInt(a[5], 10, 64)
 				hist, after = a[6], a[7]
 				st2, op2 = st, opn
+			case "pool2":
+				ctor, ext, fail = a[3], "-", a[4]
+				seed, _ = strconv.ParseInt(a[5], 10, 64)
+				hist, after = a[6], a[9]
+				st2, op2 = side(a[7]), opn
 			}
 			d := &recDst{failAt: -1}
 			if fail != "-" {
@@ -148,6 +155,20 @@ func init() {
 				wsutil.PutWriter(w)
 				n, _ := strconv.Atoi(a[3])
 				w = wsutil.GetWriter(d2, st2, ws.OpCode(op2), n)
+			case "pool2":
+				// sync.Pool keeps what one goroutine puts and takes right back as long as no GC cycle intervenes
+				gc := debug.SetGCPercent(-1)
+				wsutil.PutWriter(w)
+				n, _ := strconv.Atoi(a[8])
+				w = wsutil.GetWriter(d2, st2, ws.OpCode(op2), n)
+				// leave nothing of this case in the pool for the following ones
+				for _, cls := range []int{128, 256, 512, 1024, 2048, 4096, 8192, 16384, 32768, 65536} {
+					for i := 0; i < 3; i++ {
+						wsutil.GetWriter(&recDst{failAt: -1}, 0, 1, cls)
+					}
+				}
+				debug.SetGCPercent(gc)
+				ms = wsflate.MessageState{}
 			}
 			size := w.Size()
 			amasks := seedMasks(seed+1, 24)
@@ -345,6 +366,21 @@ func genC18(tier string, r *rng) {
 				run(fmt.Sprintf("rst pool %s 1 %d - %d %s %s", sd, n, 300+hi, h, afters[hi%len(afters)]))
 				if strings.Contains(h, "w") {
 					run(fmt.Sprintf("rst pool %s 1 %d 0 %d %s %s", sd, n, 300+hi, h, afters[(hi+1)%len(afters)]))
+				}
+			}
+		}
+	}
+	// any writer handed to the pool and whatever GetWriter hands out next for that or another class
+	for _, sd := range []string{"S", "C"} {
+		for ci, ctor := range []string{"size:128", "size:256", "size:4096", "size:100", "buf:260", "get:128", "size:8192", "bufsize:128"} {
+			for hi, h := range []string{"-", "w:" + hx(r.bytes(5)), "nf,w:" + hx(r.bytes(3)), "se:c1,w:" + hx(r.bytes(3)), "nf,w:" + hx(r.bytes(300)), "w:" + hx(r.bytes(9)) + ",ff"} {
+				for _, n := range []int{128, 200, 256, 4096, 8192, 16384} {
+					if tier == "quick" && (ci+hi+n/128)%3 != 0 {
+						continue
+					}
+					sd2 := []string{"S", "C"}[(ci+hi)%2]
+					af := []string{"av", "w:" + hx(r.bytes(300)) + ",w:" + hx(r.bytes(9000)) + ",fl,av", "w:" + hx(r.bytes(4)) + ",fl"}[(hi+n)%3]
+					run(fmt.Sprintf("rst pool2 %s 1 %s - %d %s %s %d %s", sd, ctor, 500+hi, h, sd2, n, af))
 				}
 			}
 		}
